@@ -101,7 +101,7 @@ macro_rules! observe_impl {
                 // a word entirely past the last bit: zero, or the documented out-of-range panic
                 ctx.evals += 1;
                 if let Ok(v) = crate::run::trap(|| b.get_word(w)) {
-                    if v != 0 {
+                    if v != 0 && !ctx.mute {
                         ctx.violation("get_word", "padding-word", format!("get_word({w})"), "0 (padding) or out-of-range panic".into(), format!("{v}"));
                     }
                 }
